@@ -35,6 +35,8 @@ type c04Op struct {
 	Node   string
 	Parent string
 	Points data.Points
+	// Lib: the first (nodePoints) and second (create) half of one client.SendNode call
+	Lib bool
 }
 
 func (o c04Op) subject() string {
@@ -139,6 +141,23 @@ func c04Ops(seed int64, phase, writers int, root string) []c04Op {
 			created++
 			id := fmt.Sprintf("%s-w%d-n%d", pfx, w, created)
 			parent := ks[r.Intn(len(ks))]
+			if r.Chance(0.35) {
+				// the library's way of creating a node: client.SendNode with the node's points (many, so that
+				// storing them takes a while) and its edge in one call; when it returns without error both
+				// count as acknowledged
+				id += "-orph" // (its points may be stored before it has an edge)
+				n := 200 + r.Intn(1300)
+				pts := make(data.Points, 0, n)
+				for j := 0; j < n; j++ {
+					p := data.Point{Type: "cfg", Key: fmt.Sprint(j + 1), Time: ts(), Value: val(), Origin: "w"}
+					p.Text = fmt.Sprintf("t%v", p.Value)
+					pts = append(pts, p)
+				}
+				add(c04Op{Writer: w, Kind: "nodePoints", Node: id, Points: pts, Lib: true})
+				mkCreate(w, id, parent, "variable")
+				ops[len(ops)-1].Lib = true
+				continue // (no later operation builds on this node: the library gives up after a second, and then it may not exist)
+			}
 			mkCreate(w, id, parent, "variable")
 			known[w] = append(known[w], id)
 			placements[id] = []string{parent}
@@ -170,6 +189,9 @@ func c04Ops(seed int64, phase, writers int, root string) []c04Op {
 
 var c04Out sync.Mutex
 
+// c04WorkerSite is the worker's kill switch (the store's hook sites and the worker's own)
+var c04WorkerSite func(string, ...any)
+
 func c04Say(s string) {
 	c04Out.Lock()
 	_, _ = os.Stdout.Write([]byte(s + "\n"))
@@ -186,13 +208,14 @@ func c04Worker(args []string) int {
 		// die at the k-th hit of a hook site (statement boundaries inside transactions, steps of first-time initialisation)
 		site, k, hits := args[4], 0, int64(0)
 		fmt.Sscan(args[5], &k)
-		store.VerifSetHook(func(s string, _ ...any) {
+		c04WorkerSite = func(s string, _ ...any) {
 			if s == site && atomic.AddInt64(&hits, 1) == int64(k) {
 				c04Say("SITEKILL " + site)
 				_ = syscall.Kill(os.Getpid(), syscall.SIGKILL)
 				select {}
 			}
-		})
+		}
+		store.VerifSetHook(c04WorkerSite)
 	}
 	in, err := vlib.StartInstance(vlib.InstCfg{StoreFile: file})
 	if err != nil {
@@ -210,8 +233,35 @@ func c04Worker(args []string) int {
 			c04Say("CONNERR " + err.Error())
 			return
 		}
-		for _, o := range ops[from:to] {
+		for oi, o := range ops[from:to] {
 			if o.Writer != w && w >= 0 {
+				continue
+			}
+			if o.Lib && o.Kind == "create" {
+				continue // done together with the op before it
+			}
+			if o.Lib {
+				cr := ops[from+oi+1]
+				ne := data.NodeEdge{ID: o.Node, Parent: cr.Parent, Points: append(data.Points{}, o.Points...)}
+				for _, p := range cr.Points {
+					if p.Type == data.PointTypeNodeType {
+						ne.Type = p.Text
+					} else {
+						ne.EdgePoints = append(ne.EdgePoints, p)
+					}
+				}
+				c04Say(fmt.Sprintf("START %d", o.N))
+				c04Say(fmt.Sprintf("START %d", cr.N))
+				if err := client.SendNode(nc, ne, "w"); err != nil {
+					c04Say(fmt.Sprintf("SENDERR %d %v", o.N, err))
+					c04Say(fmt.Sprintf("SENDERR %d %v", cr.N, err))
+					continue
+				}
+				c04Say(fmt.Sprintf("ACK %d", o.N))
+				c04Say(fmt.Sprintf("ACK %d", cr.N))
+				if c04WorkerSite != nil {
+					c04WorkerSite("worker.afterSendNode")
+				}
 				continue
 			}
 			c04Say(fmt.Sprintf("START %d", o.N))
@@ -442,7 +492,7 @@ func runC04(tier string, args []string) int {
 		return c04RootRecover(args[1:])
 	}
 	c := vlib.NewCtx("C04", tier, "fault_enumeration")
-	c.SetRule("per case a writer process (full instance + 1-4 writer connections issuing a deterministic list of acknowledged batches with unique timestamps/values: node batches of 1-5 points and occasional batches of 300-1400 points, in half of the phases a burst of 150-350 pipelined batches from one more connection (the store then works through a backlog), edge creation with node type and edge points, edge-point updates, a mirror, points for a node whose edge is only created later in the phase or after the crash in the next phase, over a 4-deep diamond-shaped tree) is killed with SIGKILL at a crash instant chosen from: (a) the N-th write(2) to the store file or its WAL, injected by strace, N from a PRNG list covering first-time initialisation (small N) and steady state, (b) the k-th hit of a verif-tag hook site inside the store (between the statements of a write transaction, between database write and rebroadcast, between the separate steps of first-time initialisation), (c) a parent-side kill after k acknowledged operations, (d) no kill (clean stop). In addition one operation - the replacement of the instance root - is killed at every one of its write(2) calls in turn. The file is then reopened by a fresh process (full instance), dumped and judged; the recovered file is run and killed a second time (crash during reopening / continued use). Oracle: reopen succeeds with one root; root id and signing key equal the ones announced before the kill; every acknowledged batch is present (stored timestamp >= each of its points); every started batch is visible completely or not at all; no stored harness point that was never sent; C03 Merkle oracle on the recovered tree; admin.storeVerify silent. distinct = (phase, kill kind, operation kind open at death, init|steady, write-index bucket)")
+	c.SetRule("per case a writer process (full instance + 1-4 writer connections issuing a deterministic list of acknowledged batches with unique timestamps/values: node batches of 1-5 points and occasional batches of 300-1400 points, in half of the phases a burst of 150-350 pipelined batches from one more connection (the store then works through a backlog), edge creation with node type and edge points, edge-point updates, a mirror, points for a node whose edge is only created later in the phase or after the crash in the next phase, over a 4-deep diamond-shaped tree) is killed with SIGKILL at a crash instant chosen from: (a) the N-th write(2) to the store file or its WAL, injected by strace, N from a PRNG list covering first-time initialisation (small N) and steady state, (b) the k-th hit of a verif-tag hook site inside the store (between the statements of a write transaction, between database write and rebroadcast, between the separate steps of first-time initialisation), (c) a parent-side kill after k acknowledged operations, (d) no kill (clean stop). In addition one operation - the replacement of the instance root - is killed at every one of its write(2) calls in turn. The file is then reopened by a fresh process (full instance), dumped and judged; the recovered file is run and killed a second time (crash during reopening / continued use). A third of the node creations go through the library's client.SendNode with 200-1500 points (its return without error counts as the acknowledgement of the points and of the edge); one kill kind is death at the moment SendNode has returned. Oracle: reopen succeeds with one root; root id and signing key equal the ones announced before the kill; every acknowledged batch is present (stored timestamp >= each of its points); every started batch is visible completely or not at all; no stored harness point that was never sent; C03 Merkle oracle on the recovered tree; admin.storeVerify silent. distinct = (phase, kill kind, operation kind open at death, init|steady, write-index bucket)")
 	c.Assume("process death only (SIGKILL): the page cache survives, which is what the property states; power loss is out of scope")
 	self, _ := os.Executable()
 	if _, err := exec.LookPath("strace"); err != nil {
@@ -554,7 +604,7 @@ func runC04(tier string, args []string) int {
 		root, key := "", ""
 		for phase := 1; phase <= 2; phase++ {
 			// choose the crash instant
-			kind := []string{"strace", "strace", "strace", "ackkill", "clean", "site", "site"}[r.Intn(7)]
+			kind := []string{"strace", "strace", "strace", "ackkill", "clean", "site", "site", "libkill"}[r.Intn(8)]
 			n := 0
 			site := ""
 			switch kind {
@@ -579,6 +629,9 @@ func runC04(tier string, args []string) int {
 				}
 			case "ackkill":
 				n = r.Intn(50)
+			case "libkill":
+				// death at the moment client.SendNode has returned without error for the n-th time
+				kind, site, n = "site", "worker.afterSendNode", 1+r.Intn(3)
 			}
 			var cmd *exec.Cmd
 			slog := filepath.Join(dir, fmt.Sprintf("strace%d.log", phase))
